@@ -4,10 +4,16 @@
    each theorem below says that the definition generated from one Go function is equal, for all
    arguments and over an arbitrary `O : Ops`, to the hand-written model function the rest of the
    development reasons about (Geo/Vec.v, Geo/Box.v, Geo/Mat.v, Sdf/Union2.v, Sdf/Shape.v).  The
-   proofs (Sdf/GenEq.v) are by conversion, so a theorem holds exactly as long as the Go function
-   and the model function are the same term up to let-structure: a semantic edit of the Go
-   function (or of the model function) breaks the theorem named after it; reformatting, comments,
-   parentheses, renaming of locals, reordering of independent statements do not.
+   proofs (Sdf/GenEq.v, tactics Sdf/GenEqTac.v) decide the equality by conversion, where needed on every
+   branch of an exhaustive case analysis over the atomic tests of the `if` conditions, and for loops over
+   arbitrary lists by an induction stated for any loop body meeting the specification of one iteration.
+   No law of arithmetic is used (the Ops are abstract): a semantic edit of the Go function (or of the model
+   function) breaks the theorem named after it; reformatting, comments, parentheses, renaming of locals,
+   reordering of independent statements, helper functions extracted or inlined, named (also function-local)
+   constants, nested if/else against else-if chains, `switch`, early returns, && / || against tests made one
+   after the other, index loops against range loops, make+index against append, a declaration moved to
+   another file of its package do not.  (Where the Evaluate closure of a constructor changes the SHAPE of its
+   control flow, the closures are compared pointwise and Print Assumptions reports functional extensionality.)
    TRANSL_<Type>      (Circle, Cone, Sor, ...): the Evaluate method.  The receiver fields are
                       parameters of the generated definition; the theorem substitutes what the
                       model constructor k_xxx pre-computes and speaks about the closure of the
